@@ -39,6 +39,8 @@ def gen_enum(rng):
     elif style == "strmixin":
         vals = rng.sample(["x", "why", "", "Z z"], min(n, 4))
         names = names[:len(vals)]
+        if rng.random() < 0.5:
+            vals[0] = names[1]     # a member whose VALUE is the NAME of another member: a str-mixin member equals its value (defect #51)
     elif style == "unhashable":
         vals = [[1, 2], [3], {"k": 1}, "plain", 7][:n]
     else:
@@ -166,10 +168,12 @@ def check_enum(ctx, cls, style, prov_name, provider, ref_dump, modes, value_tp=N
 
 def name_rep(m, name_style, mp):
     if mp:
-        if m in mp:
-            return mp[m]
-        if m.name in mp:
-            return mp[m.name]
+        for k, v in mp.items():      # a map key is a member (identity) or a member NAME; a str-mixin member == its value must not matter
+            if k is m:
+                return v
+        for k, v in mp.items():
+            if not isinstance(k, enum.Enum) and k == m.name:
+                return v
     return style_ref(m.name, name_style) if name_style else m.name
 
 
@@ -320,7 +324,8 @@ def run_case(ctx, rng, idx):
         ns = rng.choice([None, NameStyle.CAMEL, NameStyle.UPPER_SNAKE, NameStyle.LOWER_KEBAB, NameStyle.PASCAL_DOT])
         mp_kind = rng.choice(["none", "by-name", "by-member"])
         first, last = list(cls)[0], list(cls)[-1]
-        mp = {first.name: "first!"} if mp_kind == "by-name" else {last: "last!"} if mp_kind == "by-member" else None
+        by_name_key = rng.choice(list(cls)).name
+        mp = {by_name_key: "first!"} if mp_kind == "by-name" else {last: "last!"} if mp_kind == "by-member" else None
         if all(n.replace("_", "a").isalnum() for n in cls.__members__):
             check_enum(ctx, cls, style, f"enum_by_name(style={ns.name if ns else None}, map={mp_kind})", enum_by_name(name_style=ns, map=mp), lambda m: name_rep(m, ns, mp), modes)
         if style in ("int", "intenum"):
@@ -366,4 +371,25 @@ def _witnesses(ctx):
     check_flag_names(ctx, rng, enum.Flag("Plain", {"R": 1, "W": 2, "X": 4}), "plain", (False, False, True, None, "none"), MODES[:2])
 
 
-DIRECTED = {"documented-refusals": _refusals, "zero-member-multibit-unhashable": _witnesses}
+def _str_subclass_is_a_str(ctx):
+    """A list of member names is one representation, a single name another: an instance of a str subclass is a str, not an iterable of
+    one-character names (defect #49: flag_by_member_names gave F.a|b for MyStr('ab'))."""
+    from adaptix import flag_by_member_names  # noqa: PLC0415
+
+    from ..hostile import MyStr  # noqa: PLC0415
+
+    F = enum.Flag("Chars", {"a": 1, "b": 2, "ab": 4})
+    for single in (True, False):
+        for dt, sc in MODES[:2]:
+            r = Retort(recipe=[flag_by_member_names(F, allow_single_value=single)], debug_trail=dt, strict_coercion=sc)
+            for datum, plain in ((MyStr("ab"), "ab"), (MyStr("ba"), "ba"), (MyStr("a"), "a")):
+                got, ref = attempt(r.load, datum, F), attempt(r.load, plain, F)
+                ctx.evaluated(("str-subclass", single, dt.name, sc, plain))
+                ctx.count("str_subclass_probes")
+                same = got.kind == ref.kind and (got.kind != "ok" or got.value is ref.value)
+                if not same:
+                    ctx.violation("non-representation-accepted:flag_by_member_names:str-subclass",
+                                  f"flag_by_member_names(allow_single_value={single}): {datum!r} ({type(datum).__name__}) -> {got!r}, the plain str {plain!r} -> {ref!r}", {"single": single})
+
+
+DIRECTED = {"documented-refusals": _refusals, "zero-member-multibit-unhashable": _witnesses, "str-subclass-is-a-str": _str_subclass_is_a_str}
